@@ -74,13 +74,22 @@ def sub_rule(chk, db, table):
         for a in assume:
             T.atoms(a, atoms)
         entry = dict((k, v) for k, v in atoms.items() if "#" not in k and "@" not in k)
+        for tp in f.get("tparams") or []:
+            if tp.get("k") == "nttp" and tp.get("n") in entry:
+                entry[tp["n"]] = "u"        # the member's own Offset / Count range over all of size_t (Count may be dynamic_extent)
         bad = unk = None
         nm = 0
         for sc in G.sort_choices(entry):
             ai = dict((k, sc.get(k, v)) for k, v in entry.items())
             pi = G.inst_prog(prog, sc)
             invs = [T.instantiate_sorts(a, sc) for a in assume]
-            for m in T.models(ai, invs):
+            consts = set()
+            for a in invs:
+                T.constants_in(a, consts)
+            for nd in P.flatten(pi):
+                if nd[0] in ("guard", "branch", "oblige"):
+                    T.constants_in(nd[1], consts)        # npos in `Count == dynamic_extent` must be in the domain
+            for m in T.models(ai, invs, constants=consts):
                 nm += 1
                 tr = P.run(pi, m)
                 for ev in tr.events:
@@ -119,7 +128,7 @@ def mirror_rule(chk, db):
                 if not ok:
                     chk.violation("MIRROR", astx.sig(f), "wrong-product", "%s: %s of %s must be built on %s (calls: %s)" % (
                         astx.loc(f), name, rq, prod, sorted(set(c for c in calls if c and "prod" in c))), {"where": astx.loc(f)})
-        for f in db.by_q.get(rq + "::operator()", []):
+        for f in db.by_q.get(rq + "::operator()", []) + (db.by_q.get("etl::layout_stride::mapping::operator()", []) if prod == "fwd_prod_of_extents" else []):
             n += 1
             chk.instance("MIRROR")
             # the fold may live in a private helper of the mapping that operator() calls
@@ -135,9 +144,10 @@ def mirror_rule(chk, db):
             for fo in fold:
                 pat = fo.get("l") if fo.get("l") is not None and fo["l"].get("k") != "int" else fo.get("r")
                 txt = astx.show(pat, 200) if pat else ""
-                if "stride(" in txt.replace(" ", ""):
+                tx = txt.replace(" ", "")
+                if "stride(" in tx or "_strides[" in tx:
                     seen_stride_fold = True
-                if fo["op"] == "+" and "*" in txt and "stride(Is)" in txt.replace(" ", "") and "indices" in txt:
+                if fo["op"] == "+" and "*" in txt and ("stride(Is)" in tx or "_strides[Is]" in tx):
                     ok = True
             if not ok and not seen_stride_fold:
                 chk.obligation("MIRROR", astx.sig(f), None)
@@ -145,7 +155,7 @@ def mirror_rule(chk, db):
                 continue
             chk.obligation("MIRROR", astx.sig(f), ok)
             if not ok:
-                chk.violation("MIRROR", astx.sig(f), "not-index-times-stride", "%s: operator() is not the fold (indices * stride(Is) + ...)" % astx.loc(f),
+                chk.violation("MIRROR", astx.sig(f), "not-index-times-stride", "%s: operator() is not the sum fold (index * stride(Is) + ...)" % astx.loc(f),
                               {"where": astx.loc(f)})
     if n < 6:
         chk.analysis_broken("MIRROR: only %d layout members found" % n)
@@ -385,6 +395,44 @@ def fullprod_rule(chk, db):
                     astx.loc(f, x), f["n"], "below index" if fwd else "above index", astx.show(a, 30)), {"where": astx.loc(f)})
     if n < 2:
         chk.analysis_broken("FULLPROD: only %d total-size products found in mdspan / mdarray / layout mappings (floor 2)" % n)
+
+
+def prodloop_rule(chk, db):
+    """PRODLOOP: a loop that accumulates a product (or sum) of extents / strides indexes them with its own counter:
+    `for (e = lo; e < hi; ++e) result *= extent(e)`. An index that does not mention the counter multiplies the same factor
+    in every iteration."""
+    from ..rules import iters as IT
+    n = 0
+    for f in db.funcs:
+        if f.get("body") is None or not (f["file"].startswith("_mdspan/") or f["file"].startswith("_mdarray/") or f["file"].startswith("_linalg/layout")):
+            continue
+        for lp in [st for st in astx.walk_stmts(f["body"]) if st.get("k") == "for"]:
+            counter = None
+            if lp.get("init") is not None and lp["init"].get("k") == "decl":
+                for v in lp["init"]["vars"]:
+                    counter = v["n"]
+            if counter is None and lp.get("inc") is not None:
+                for x in astx.walk_expr(lp["inc"]):
+                    if x.get("k") == "un" and x["op"] in ("++", "--") and IT.ref_name(x["e"]):
+                        counter = IT.ref_name(x["e"])
+            if counter is None:
+                continue
+            for x in astx.walk_stmt_exprs(lp.get("body"), into_lambdas=False):
+                if x.get("k") != "bin" or x["op"] not in ("*=", "+="):
+                    continue
+                idx = [y for y in astx.walk_expr(x["r"]) if (y.get("k") == "call" and astx.callee(y)[0] in ("extent", "static_extent", "stride") and len(y["a"]) == 1)
+                       or (y.get("k") == "idx")]
+                if not idx:
+                    continue
+                n += 1
+                label = "%s :: `%s` in the loop over `%s`" % (astx.sig(f), astx.show(x, 50), counter)
+                chk.instance("PRODLOOP")
+                ok = all(any(IT.ref_name(z) == counter for z in astx.walk_expr(y["a"][0] if y.get("k") == "call" else y["i"])) for y in idx)
+                chk.obligation("PRODLOOP", label, ok)
+                if not ok:
+                    chk.violation("PRODLOOP", label, "index-ignores-counter", "%s: the accumulated factor `%s` does not depend on the loop counter `%s`: "
+                                  "every iteration uses the same extent" % (astx.loc(f, x), astx.show(x["r"], 40), counter), {"where": astx.loc(f)})
+    return n
 
 
 def transpose_rule(chk, db):
@@ -646,6 +694,8 @@ def run(chk, tier):
     dynslot_rule(chk, db)
     mapped_rule(chk, db)
     fullprod_rule(chk, db)
+    if prodloop_rule(chk, db) < 1:
+        chk.unknown_instance('PRODLOOP', 'etl::extents', 'no accumulating loop over extents found')
     transpose_rule(chk, db)
     transpose_extents_rule(chk, db)
     rel.check(chk, db, ["_array/array.hpp", "_mdspan/layout_left.hpp", "_mdspan/layout_right.hpp", "_linalg/layout_transpose.hpp"])
